@@ -66,4 +66,20 @@ class AckModel:
                         self.recv_sites.append((f, bb, t, c.split("::")[-1]))
                     elif "crossbeam_channel::Iter<" in g and t.get("rpath", "").endswith("::next"):
                         self.recv_sites.append((f, bb, t, "iter_next"))
+                    elif c == "std::iter::Iterator::for_each" and t.get("gargs") and "crossbeam_channel::Iter<" in t["gargs"][0]:
+                        # receiver.iter().for_each(closure): receives until the channel is disconnected, by construction
+                        self.recv_sites.append((f, bb, t, "iter_for_each"))
         self.send_fns = {f.name for f, bb, t, m in self.send_sites}
+
+
+def worker_root(F, name, spawn):
+    """the spawned closure a (nested) closure is written in, else the name itself"""
+    cur = name
+    for _ in range(6):
+        if cur in spawn:
+            return cur
+        f = F.fn(cur)
+        if f is None or f.kind != "Closure":
+            return name
+        cur = f.rec.get("parent")
+    return name
